@@ -37,6 +37,7 @@ struct blk {
     int tag;
     int live;
     int released;       /* real memory already returned */
+    int far;            /* 1 + far slot the block lives in, 0: ordinary memory */
 };
 
 static struct blk *blks;
@@ -140,6 +141,44 @@ static void pmap_grow(void)
     pmap_rebuild(pmap_size ? pmap_size * 2 : 1024);
 }
 
+/* ------------------------------------------------------------ far placement
+ * Element blocks (TAG_ELEM) of a run may be placed one per "slot" in an arena of pages that lie 2^32 bytes apart with the same
+ * offset in the page (mode 1: every two elements of the run have addresses that agree in their low 32 bits and differ above)
+ * or 3 * 2^31 bytes apart with varying offsets (mode 2: every two elements are further apart than an int can hold). Code that
+ * compares, subtracts, xors or hashes node addresses in 32 bits behaves on such elements as on no others. The pages are mapped
+ * on first use and stay; a slot is reused when its block is released from quarantine. */
+#include <sys/mman.h>
+#ifndef MAP_FIXED_NOREPLACE
+# define MAP_FIXED_NOREPLACE 0x100000
+#endif
+#define FAR_SLOTS 2048
+#define FAR_BASE ((uintptr_t)1 << 44)
+static unsigned char far_mapped[2][FAR_SLOTS], far_busy[2][FAR_SLOTS];
+static int far_mode, far_next;
+unsigned g_far_placed;
+void simheap_far(int mode) { far_mode = SIM_REALFREE ? 0 : mode; far_next = 0; }
+static unsigned char *far_take(size_t bytes, int *slot_out)
+{
+    int m = far_mode - 1, tries;
+    if (far_mode < 1 || far_mode > 2 || bytes > 2048) return NULL;
+    for (tries = 0; tries < FAR_SLOTS; tries++) {
+        int sl = far_next; uintptr_t pg;
+        far_next = (far_next + 1) % FAR_SLOTS;
+        if (far_busy[m][sl]) continue;
+        pg = FAR_BASE + (m ? ((uintptr_t)1 << 46) + (uintptr_t)sl * ((uintptr_t)3 << 31) : (uintptr_t)sl << 32);
+        if (!far_mapped[m][sl]) {
+            if (mmap((void *)pg, 4096, PROT_READ | PROT_WRITE, MAP_PRIVATE | MAP_ANONYMOUS | MAP_FIXED_NOREPLACE, -1, 0) != (void *)pg) { far_busy[m][sl] = 2; continue; }
+            far_mapped[m][sl] = 1;
+        }
+        far_busy[m][sl] = 1;
+        *slot_out = m * FAR_SLOTS + sl;
+        g_far_placed++;
+        return (unsigned char *)pg + (m ? 64 + (sl % 16) * 112 : 256);
+    }
+    return NULL;
+}
+static void far_give(int slot) { far_busy[slot / FAR_SLOTS][slot % FAR_SLOTS] = 0; }
+
 void simheap_reset(const struct simheap_cfg *cfg, uint64_t seed)
 {
     simheap_end_run();
@@ -150,6 +189,7 @@ void simheap_reset(const struct simheap_cfg *cfg, uint64_t seed)
     memset(&g_hs, 0, sizeof(g_hs));
     g_nhev = 0;
     fail_in_op = 0; fail_prob = 0; fail_bitmap = NULL; fail_nbits = 0; fail_suffix = 0;
+    far_mode = 0; far_next = 0;
 }
 
 void simheap_end_run(void)
@@ -157,6 +197,7 @@ void simheap_end_run(void)
     unsigned i;
     for (i = 0; i < nblks; i++) {
         if (!blks[i].released) {
+            if (blks[i].far) far_give(blks[i].far - 1); else
             __real_free(SIM_REALFREE ? blks[i].user : blks[i].user - CAN);
             blks[i].released = 1;
         }
@@ -188,9 +229,13 @@ static struct blk *blk_new(size_t size, int tag)
     memset(real, hcfg.junk, size);
     b = &blks[nblks];
     b->user = real;
+    b->far = 0;
 #else
-    real = __real_malloc(alloc + 2 * CAN);
-    if (real == NULL) return NULL;
+    { int slot = -1;
+      real = tag == TAG_ELEM ? far_take(alloc + 2 * CAN, &slot) : NULL;
+      if (real == NULL) { slot = -1; real = __real_malloc(alloc + 2 * CAN); }
+      if (real == NULL) return NULL;
+      blks[nblks].far = slot + 1; }
     memset(real, CAN_FRONT, CAN);
     memset(real + CAN, hcfg.junk, alloc);
     memset(real + CAN + size, CAN_BACK, CAN);
@@ -218,6 +263,7 @@ static void quarantine_trim(void)
             /* forget the address: it may be reused by the real allocator */
             b->released = 1;
             quarantine_bytes -= b->alloc;
+            if (b->far) far_give(b->far - 1); else
             __real_free(b->user - CAN);
             pmap_rebuild(pmap_size);
         }
